@@ -485,4 +485,139 @@ def Sentence.render (s : Sentence) : Txt := s.first.render ++ renderRest s.rest
 def Sentence.denote (s : Sentence) : Expr :=
   s.first.denote .normal :: s.rest.map fun (w, r) => r.denote w.denote
 
+-- ------------------------------------------------------------------------------------------
+-- well-formed sentences: the value ranges of the grammar and the few context conditions under
+-- which a spelling is a sentence of the supported grammar with the stated denotation
+
+def i64Bound : Nat := 9223372036854775808
+
+def Clock.wf (maxH : Nat) (c : Clock) : Bool := decide (c.h ≤ maxH) && decide (c.m ≤ 59)
+def EvOff.wf : EvOff → Bool
+  | .clock c => c.wf 23
+  | .h24 => true
+def Var.wf : Var → Bool
+  | .plain _ => true
+  | .shifted _ _ off => off.wf
+def Start.wf : Start → Bool
+  | .clock c => c.wf 23
+  | .h24 => true
+  | .var v => v.wf
+/-- up to `47:59`, or `48:00` -/
+def Stop.wf : Stop → Bool
+  | .clock c => c.wf 47 || (decide (c.h = 48) && decide (c.m = 0))
+  | .var v => v.wf
+def Period.wf : Period → Bool
+  | .minutes m => decide (m ≤ 59)
+  | .clock c => c.wf
+def Span.wf : Span → Bool
+  | .from_ a => a.wf
+  | .range a _ _ b _ => a.wf && b.wf
+  | .repeated a _ b _ _ p => a.wf && b.wf && p.wf
+
+def Num.wf (bound : Nat) (n : Num) : Bool := decide (1 ≤ n.val) && decide (n.val < bound)
+def DayOff.wf (o : DayOff) : Bool := o.n.wf i64Bound
+def optOffWf : Option DayOff → Bool
+  | none => true
+  | some o => o.wf
+
+def NthEntry.wf : NthEntry → Bool
+  | .one a => decide (1 ≤ a ∧ a ≤ 5)
+  | .range a b => decide (1 ≤ a ∧ a ≤ b ∧ b ≤ 5)
+  | .last a => decide (1 ≤ a ∧ a ≤ 5)
+def WdRange.wf : WdRange → Bool
+  | .single a => decide (a ≤ 6)
+  | .span a b => decide (a ≤ 6) && decide (b ≤ 6)
+  | .nth a es off => decide (a ≤ 6) && !es.isEmpty && es.all NthEntry.wf && optOffWf off
+def Hol.wf : Hol → Bool
+  | .pub off => optOffWf off
+  | .school => true
+def WdSel.wf : WdSel → Bool
+  | .days ws => !ws.isEmpty && ws.all WdRange.wf
+  | .hols hs => !hs.isEmpty && hs.all Hol.wf
+  | .holsDays hs _ ws => !hs.isEmpty && hs.all Hol.wf && !ws.isEmpty && ws.all WdRange.wf
+  | .daysHols ws _ hs => !ws.isEmpty && ws.all WdRange.wf && !hs.isEmpty && hs.all Hol.wf
+
+def yearWf (y : Nat) : Bool := decide (1900 ≤ y ∧ y ≤ 9999)
+def YearR.wf : YearR → Bool
+  | .single a => yearWf a
+  | .plus a => yearWf a
+  | .range a b => yearWf a && yearWf b
+  | .step a b s => yearWf a && yearWf b && s.wf 65536
+def Small.wf (hi : Nat) (w : Small) : Bool := decide (1 ≤ w.val ∧ w.val ≤ hi)
+def WeekR.wf : WeekR → Bool
+  | .single a => a.wf 53
+  | .range a b => a.wf 53 && b.wf 53
+  | .step a b s => a.wf 53 && b.wf 53 && s.wf 256
+def WeekSel.wf (w : WeekSel) : Bool := !w.weeks.isEmpty && w.weeks.all WeekR.wf
+
+def yearPrefixWf : Option (Nat × Bool) → Bool
+  | none => true
+  | some (y, _) => yearWf y
+def monthWf (m : Nat) : Bool := decide (1 ≤ m ∧ m ≤ 12)
+def SDate.wf : SDate → Bool
+  | .fixed y m _ d => yearPrefixWf y && monthWf m && d.wf 31
+  | .easter y => yearPrefixWf y
+def SOffset.wf : SOffset → Bool
+  | .none => true
+  | .days o => o.wf
+  | .wday _ w o => decide (w ≤ 6) && optOffWf o
+def optYearWf : Option Nat → Bool
+  | none => true
+  | some y => yearWf y
+def MdRange.wf : MdRange → Bool
+  | .month y a => optYearWf y && monthWf a
+  | .months y a b => optYearWf y && monthWf a && monthWf b
+  | .date d o => d.wf && o.wf
+  | .openEnd d o => d.wf && o.wf
+  | .range d1 o1 _ _ d2 o2 => d1.wf && o1.wf && d2.wf && o2.wf
+  | .toDay y m _ d o1 _ _ d2 o2 =>
+    yearPrefixWf y && monthWf m && d.wf 31 && o1.wf && d2.wf 31 && o2.wf
+      -- the end may not roll over past the last supported year
+      && !(decide (d.val > d2.val) && decide (m = 12) && (match y with | some (v, _) => decide (v ≥ 9999) | none => false))
+
+/-- the text of this month-day range starts with a year -/
+def MdRange.startsWithYear : MdRange → Bool
+  | .month y _ => y.isSome
+  | .months y _ _ => y.isSome
+  | .date d _ => d.hasYear
+  | .openEnd d _ => d.hasYear
+  | .range d _ _ _ _ _ => d.hasYear
+  | .toDay y .. => y.isSome
+
+def commentWf (c : String) : Bool := !c.toList.isEmpty && !c.toList.contains '"'
+
+def Wide.wf : Wide → Bool
+  | .empty => true
+  | .comment c => commentWf c
+  | .sel ys ms ws _ =>
+    !(ys.isEmpty && ms.isEmpty && ws.isNone)
+      && ys.all YearR.wf && ms.all MdRange.wf && (match ws with | some w => w.wf | none => true)
+      -- years directly followed by month days: the year text must not be readable as the year of the
+      -- first month-day range (a single plain year), nor run into its digits
+      && (ys.isEmpty || ms.isEmpty ||
+            (!(match ys with | [.single _] => true | _ => false)
+              && !((ms.head?.map MdRange.startsWithYear).getD false)))
+
+def Sel.wf : Sel → Bool
+  | .always => true
+  | .sel w wd ts =>
+    w.wf && (match wd with | some x => x.wf | none => true) && ts.all Span.wf
+      && (match w with
+          -- without wide-range selectors there must be a weekday or a time selector
+          | .empty => wd.isSome || !ts.isEmpty
+          | .comment _ => true
+          -- a separator is written exactly when something follows in the same rule (`:` may also
+          -- close the selectors)
+          | .sel _ _ _ sep =>
+            if wd.isSome || !ts.isEmpty then sep != .none else (sep == .none || sep == .colon))
+
+def Modifier.wf (m : Modifier) : Bool :=
+  match m.comment with
+  | some c => commentWf c
+  | none => true
+
+def SRule.wf (r : SRule) : Bool := r.sel.wf && r.mod.wf
+
+def Sentence.wf (s : Sentence) : Bool := s.first.wf && s.rest.all fun (_, r) => r.wf
+
 end OH.Spec.Sent
